@@ -74,6 +74,23 @@ pub fn dump_main(args: &[String]) {
                 o.insert(format!("lsp-references-{}", target), items.join("\n"));
             }
         }
+        // further answers whose entries come out of hash sets or maps: inlay hints and document symbols of the note with many
+        // references, and the workspace symbols of an empty query, in the order answered
+        let muri = s.uri("tlm");
+        if let Outcome::Result(v) = s.request("textDocument/inlayHint", json!({"textDocument": {"uri": muri}, "range": {"start": {"line": 0, "character": 0}, "end": {"line": 200, "character": 0}}})) {
+            o.insert("lsp-inlay-hints".to_string(), serde_json::to_string(&v).unwrap_or_default());
+        }
+        let t2 = s.uri("tl2");
+        if let Outcome::Result(v) = s.request("textDocument/inlayHint", json!({"textDocument": {"uri": t2}, "range": {"start": {"line": 0, "character": 0}, "end": {"line": 200, "character": 0}}})) {
+            o.insert("lsp-inlay-hints-target".to_string(), serde_json::to_string(&v).unwrap_or_default());
+        }
+        if let Outcome::Result(v) = s.request("textDocument/documentSymbol", json!({"textDocument": {"uri": muri}})) {
+            o.insert("lsp-document-symbols".to_string(), serde_json::to_string(&v).unwrap_or_default());
+        }
+        if let Outcome::Result(v) = s.request("workspace/symbol", json!({"query": ""})) {
+            let items: Vec<String> = v.as_array().cloned().unwrap_or_default().iter().map(|i| format!("{} @ {}", i["name"].as_str().unwrap_or(""), i["location"]["uri"].as_str().unwrap_or(""))).collect();
+            o.insert("lsp-workspace-symbols".to_string(), items.join("\n"));
+        }
         let _ = s.shutdown();
     }
     println!("{}", serde_json::to_string(&o).unwrap());
@@ -84,7 +101,7 @@ impl Check for C16 {
         "C16"
     }
     fn rule(&self) -> String {
-        "case = one generated library (50-400 notes, dense cross references, duplicate titles, equal ranks) dumped by N separate processes (fresh hash seeds) with RAYON_NUM_THREADS in {1,2,3,4,8,16}, the state map filled in permuted orders, built by Graph::import and by one-by-one inserts in permuted orders; the canonical dump (formatted files, titles, backlink sets with lines, rendered paths, ordered search results, node-at-line; plus, from an LSP server on the same library with nine configured block actions (three of them sharing a title), the completion list, the code-action list and the reference lists of two notes that one note names from a dozen blocks, in the order answered) of all processes must be byte-identical; distinct = (build mode, thread count, permutation) configurations that produced a dump".into()
+        "case = one generated library (50-400 notes, dense cross references, duplicate titles, equal ranks) dumped by N separate processes (fresh hash seeds) with RAYON_NUM_THREADS in {1,2,3,4,8,16}, the state map filled in permuted orders, built by Graph::import and by one-by-one inserts in permuted orders; the canonical dump (formatted files, titles, backlink sets with lines, rendered paths, ordered search results, node-at-line; plus, from an LSP server on the same library with nine configured block actions (three of them sharing a title), the completion list, the code-action list the reference lists of two notes that one note names from a dozen blocks, the inlay hints and document symbols of those notes and the workspace symbols of the empty query, in the order answered) of all processes must be byte-identical; distinct = (build mode, thread count, permutation) configurations that produced a dump".into()
     }
     fn assumptions(&self) -> Vec<String> {
         vec!["each dump comes from its own OS process, so HashMap RandomState differs between dumps".into()]
